@@ -41,6 +41,9 @@ type tPart struct {
 	NT   int    `json:"nt,omitempty"`   // nonterminal index (when Term == 0)
 	Args []tArg `json:"args,omitempty"`
 	Opt  bool   `json:"opt,omitempty"`
+	// Set "any" | "first" | "last": the part is `set(NT<args>)`, `set(first NT<args>)`, ...: one
+	// terminal of that set of the instance of NT given by the (literal) arguments and defaults.
+	Set string `json:"set,omitempty"`
 }
 
 type tLit struct {
@@ -289,6 +292,12 @@ func (c *c14Case) render() string {
 					}
 					s += "<" + strings.Join(as, ", ") + ">"
 				}
+				switch p.Set {
+				case "any":
+					s = "set(" + s + ")"
+				case "first", "last":
+					s = "set(" + p.Set + " " + s + ")"
+				}
 				if p.Opt {
 					s += "?"
 				}
@@ -313,6 +322,7 @@ type c14Inst struct {
 	term  func(t int) int
 	bad   string // reason why the grammar is outside the interpreter's domain
 	queue []func()
+	sets  []c14Set // set nonterminals, resolved once all instances exist
 }
 
 func (in *c14Inst) key(nt int, env tEnv) string {
@@ -377,6 +387,8 @@ func (in *c14Inst) instance(nt int, env tEnv) int {
 				var sym int
 				if p.Term > 0 {
 					sym = in.term(p.Term)
+				} else if p.Set != "" {
+					sym = in.setNT(p)
 				} else {
 					sym = in.instance(p.NT, in.targetEnv(nt, env, p, pi == 0))
 				}
@@ -528,6 +540,7 @@ func c14Check(c c14Case, r *ev.Recorder) *Failure {
 		r.Excluded("interpreter:" + in.bad)
 		return nil
 	}
+	in.resolveSets()
 	L := 5
 	want := oracle.PlainLang(out.NumTokens, len(in.keys), in.rules, L)
 	nts := len(out.Syms) - out.NumTokens
@@ -568,7 +581,9 @@ func c14Check(c c14Case, r *ev.Recorder) *Failure {
 	for k := range in.keys {
 		var nt int
 		fmt.Sscanf(k, "%d", &nt)
-		multi[nt]++
+		if nt >= 0 { // set nonterminals have keys starting with -1
+			multi[nt]++
+		}
 	}
 	several := false
 	for _, n := range multi {
@@ -585,6 +600,9 @@ func c14Check(c c14Case, r *ev.Recorder) *Failure {
 		if hasLA {
 			r.Class("with-lookahead-flags")
 		}
+		if len(in.sets) > 0 {
+			r.Class("with-sets-over-template-instances")
+		}
 		if r.WantSample() && len(src) < 1200 {
 			r.Sample(map[string]any{"grammar": src, "instances": len(in.keys), "strings_in_first_input": len(want[roots[0]-out.NumTokens])})
 		}
@@ -595,7 +613,7 @@ func c14Check(c c14Case, r *ev.Recorder) *Failure {
 func TestC14(t *testing.T) {
 	p := &prop[c14Case]{
 		ID:   "C14",
-		Rule: "templated grammars: 1..3 global %flag parameters (default true/false/none), 0..2 %lookahead flags, 2..5 nonterminals declaring subsets of the globals and inline `flag X [= default]` parameters (names X/Y reused across nonterminals so that name-based propagation happens), alternatives with predicates in disjunctive form over p, !p, p == lit, p != lit (&& binds tighter than ||), references with any mix of +P, ~P, P: true/false, P: Q, bare P (propagate) and omitted arguments, optional references, recursion; 1..2 unparametrized inputs. Compiled with compiler.Compile (kept when accepted or only LALR conflicts are reported). An independent interpreter instantiates (nonterminal, valuation) pairs from the inputs — omitted argument: same-named parameter of the caller, else the default; lookahead flags: explicit value, else inherited by the leftmost reference of an alternative, else false — and the set of terminal strings of length <= 5 of every input must equal the one of grammar.Parser.Rules. Non-trivial: some nonterminal instantiated with >= 2 valuations and >= 2 strings in an input; distinct by case JSON.",
+		Rule: "templated grammars: 1..3 global %flag parameters (default true/false/none), 0..2 %lookahead flags, 2..5 nonterminals declaring subsets of the globals and inline `flag X [= default]` parameters (names X/Y reused across nonterminals so that name-based propagation happens), alternatives with predicates in disjunctive form over p, !p, p == lit, p != lit (&& binds tighter than ||), references with any mix of +P, ~P, P: true/false, P: Q, bare P (propagate) and omitted arguments, optional references, recursion; in a third of the cases 1..4 parts `set(X<args>)`, `set(first X<args>)`, `set(last X<args>)` with literal arguments (often two of them over the same nonterminal with different arguments), evaluated by the interpreter as least fixpoints over the instantiated rules; 1..2 unparametrized inputs. Compiled with compiler.Compile (kept when accepted or only LALR conflicts are reported). An independent interpreter instantiates (nonterminal, valuation) pairs from the inputs — omitted argument: same-named parameter of the caller, else the default; lookahead flags: explicit value, else inherited by the leftmost reference of an alternative, else false — and the set of terminal strings of length <= 5 of every input must equal the one of grammar.Parser.Rules. Non-trivial: some nonterminal instantiated with >= 2 valuations and >= 2 strings in an input; distinct by case JSON.",
 		Assume: []string{"an instance whose alternatives are all disabled has no agreed meaning (Textmapper makes it derive the empty string); such grammars are counted and skipped", "only whole-input languages are compared, not the individual instantiated nonterminals"},
 		Quick:  24000, Thorough: 1200000,
 		Gen:   c14Gen2,
